@@ -43,7 +43,11 @@ def main(tier, seed, prop=PROP):
         jobs.append((DG.w_host_enum, (exe, DG.HOST_TOKENS, pre - 1, (), us)))
         for p in itertools.product(range(len(DG.HOST_TOKENS)), repeat=pre):
             jobs.append((DG.w_host_enum, (exe, DG.HOST_TOKENS, k - pre, p, us)))
-        for src, pool in (("lengths", pool_len), ("bytes", pool_bytes), ("corpus", sorted(muts)), ("random", rnd)):
+        kf = 3 if tier == "quick" else 4
+        for t0 in range(len(DG.FULL_LDH_TOKENS)):
+            jobs.append((DG.w_host_enum, (exe, DG.FULL_LDH_TOKENS, kf, (t0,), us)))
+        for src, pool in (("lengths", pool_len), ("bytes", pool_bytes), ("corpus", sorted(muts)), ("random", rnd),
+                          ("numeric-looking", DG.numeric_looking_hosts())):
             for i in range(0, len(pool), 1500):
                 jobs.append((DG.w_host_list, (exe, pool[i:i + 1500], us, src, True)))
     jobs[0:0] = DG.huge_jobs(cx.exe("plain-O2", san="plain-O2"), DG.huge_host_cases(tier))
@@ -58,7 +62,7 @@ def main(tier, seed, prop=PROP):
                       "all strings up to length %d over {letter,digit,'-','.','_',other} (exhaustive), label length 0-70 x "
                       "position, total length 236-261 with 0-3 trailing dots, every byte 1..255 at 12 positions, corpus "
                       "mutations, random label mixes; in the default and the LABELS_ALLOW_UNDERSCORE build; distinct strings "
-                      "per shard" % k,
+                      "per shard; names of 2^31 and 2^32+3 bytes (thorough: more shapes, one through the IDN library) in an -O2 build" % k,
                       {"enumeration_bound": k, "variants": [v[0] for v in variants], "builds": cx.builds_info()})
 
 
